@@ -1170,7 +1170,7 @@ def array_case(args):
             y = np.ceil(3 * y)
     w = r.randint(1, 4, n).astype(float) if intlike else r.uniform(0.5, 2, n)
     e = (r.randint(1, 4, n).astype(float) if intlike else r.uniform(0.5, 3, n)) if cls == 'poisson' else None
-    terms = rng.choice(['s+l+f', 'te+f', 'sby+s', 's+s'])
+    terms = ['sby+s', 's+l+f', 'te+f', 's+s', 'te+f', 'sby+s', 's+l+f'][k % 7]      # cycles with the case index: every run meets every mix under several layouts
     def mk():
         s, l, f, te = pygam.s, pygam.l, pygam.f, pygam.te
         t = {'s+l+f': lambda: s(0, n_splines=6) + l(1) + f(2), 'te+f': lambda: te(0, 1, n_splines=4) + f(2),
